@@ -8,5 +8,7 @@ CONSTANTS
   DirectOutcomes = {"ok", "err", "bad"}
   NotaryOutcomes = {"ok", "err", "missing", "bad"}
   HasLocal = TRUE
+  CtxModes = {"live"}
+  StopOnDone = FALSE
 INVARIANTS TypeOK ExactUnion EachServerOnce NothingEarly QueueBound Emit
 CHECK_DEADLOCK FALSE
